@@ -93,3 +93,59 @@ package cert
 //@   requires c.Base != nil && block != nil
 //@   ensures [cert] err == nil ==> cert.signature != nil && cert.blockHash == block.hash
 //@   modifies alloc
+
+// ---- signature cache (C11). A cache key is the string
+//   vkeyc(sig, c) = sha256(c) . signers(sig) . bytes(sig)
+// (c: content of the message). kvalid(impl, k) is the ghost meaning of "k is in the cache":
+// the entry was verified by impl. The two key_* axioms below are the single assumption the
+// cache rests on: vkeyc is injective up to the verdict, i.e. two (signature, message) pairs
+// with the same key get the same verdict from impl (SHA-256 collision resistance, the fixed
+// framing digest(32) . count(4) . ids(4 each) . bytes, and a verdict that depends only on the
+// claimed signers, the signature bytes and the message). What is proved from it: the keys the
+// code builds are exactly vkeyc of the arguments, only verified keys are inserted, a hit is
+// reported only for an inserted key, eviction only removes; hence the cached Verify returns nil
+// only if impl accepts, and returns an error only if impl returned one.
+//@ pure func kvalid(impl crypto.Base, key string) bool
+//@ pure func signerbytes(s hotstuff.QuorumSignature) int
+//@ pure func signerlen(s hotstuff.QuorumSignature) int
+//@ pure func vkeyc(s hotstuff.QuorumSignature, c int) string = bstr(bcat(bcat(bcat(0, abytes(sha256(c)), 32), signerbytes(s), signerlen(s)), hotstuff.sigbytes(s), hotstuff.sigbyteslen(s)))
+//@ pred vok(b crypto.Base, s hotstuff.QuorumSignature, c int) = s != nil && hotstuff.setlen(hotstuff.parts(s)) >= 1 && (forall id hotstuff.ID :: hotstuff.setmem(hotstuff.parts(s), id) ==> crypto.sigvalid(b, s, id, c))
+//@ axiom key_complete forall b crypto.Base, s hotstuff.QuorumSignature, c int :: {kvalid(b, vkeyc(s, c))} vok(b, s, c) ==> kvalid(b, vkeyc(s, c))
+//@ axiom key_sound forall b crypto.Base, s hotstuff.QuorumSignature, c int :: {kvalid(b, vkeyc(s, c))} kvalid(b, vkeyc(s, c)) ==> vok(b, s, c)
+//@ pred cinv(cache *Cache) = cache.impl != nil && cache.entries != nil && (forall k string :: {has(cache.entries, k)} has(cache.entries, k) ==> kvalid(cache.impl, k))
+
+//@ func writeSigners
+//@   trusted passes a closure to IDSet.ForEach (iterator contract not modelled); appends the count and the ids of the claimed signers
+//@   requires key != nil && signature != nil
+//@   ensures bchain(key) == bcat(old(bchain(key)), signerbytes(signature), signerlen(signature))
+//@   modifies *key
+
+//@ func (*Cache).evict property C11
+//@   trusted container/list is not modelled (Back/Remove and the type assertion on the element value); eviction only removes entries
+//@   ensures [only-removes] forall k string :: {has(cache.entries, k)} has(cache.entries, k) ==> old(has(cache.entries, k))
+//@   modifies cache.entries[*], cache.accessOrder
+
+//@ func (*Cache).check property C11
+//@   requires cache.entries != nil
+//@   ensures [hit-only-if-present] result ==> has(cache.entries, key)
+//@   ensures [entries-unchanged] forall k string :: {has(cache.entries, k)} has(cache.entries, k) == old(has(cache.entries, k))
+//@   modifies cache.accessOrder
+
+//@ func (*Cache).insert property C11,C03,C10
+//@   requires cinv(cache)
+//@   requires [only-verified-keys] kvalid(cache.impl, key)
+//@   ensures [inv] cinv(cache)
+//@   modifies cache.entries[*], cache.accessOrder, alloc
+
+//@ func (*Cache).Verify property C11,C03,C10
+//@   requires cinv(cache) && signature != nil
+//@   ensures [sound] result == nil ==> vok(cache.impl, signature, content(message))
+//@   ensures [inv] cinv(cache)
+//@   modifies cache.entries[*], cache.accessOrder, alloc
+//@   preserves Cache
+
+//@ func (*Cache).Sign property C11
+//@   requires cinv(cache)
+//@   ensures [inv] cinv(cache)
+//@   modifies cache.entries[*], cache.accessOrder, alloc
+//@   preserves Cache
